@@ -283,22 +283,36 @@ impl G<'_> {
             self.fail("C06-stream-bound", b);
         }
         if buffered > self.max_rw as u128 {
-            self.fail("F12-receive-window-expand-ignores-shrink-debt", format!("buffered unread={buffered} > receive window {} after {line}", self.max_rw));
+            self.fail("C06-buffered-exceeds-receive-window", format!("buffered unread={buffered} > receive window {} after {line}", self.max_rw));
         }
         // credit is issued only for consumed or discarded data (and explicit window growth)
         let dl = lmd.saturating_sub(prev.n("lmd"));
         if dl > 0 && w[0] != "new" {
             let id: u64 = w.get(1).and_then(|x| x.parse().ok()).unwrap_or(u64::MAX);
-            let allowed: u64 = match w[0] {
-                "read" => v.result.split(' ').nth(1).and_then(|x| x.parse().ok()).unwrap_or(0),
-                "stop" => prev.rn(id, "end").unwrap_or(0).saturating_sub(prev.rn(id, "br").unwrap_or(0)),
-                "stream" => dr.saturating_sub(prev.n("dr")),
-                "rst" => w[3].parse::<u64>().unwrap_or(0).saturating_sub(prev.rn(id, "br").unwrap_or(0)),
-                "recvwin" => v.n("rw").saturating_sub(prev.n("rw")),
-                _ => 0,
+            let (key, allowed): (&str, u64) = match w[0] {
+                "read" => ("C06-credit-without-consumption", v.result.split(' ').nth(1).and_then(|x| x.parse().ok()).unwrap_or(0)),
+                // stop discards what is buffered unread; after a reset there is nothing left to discard
+                "stop" => {
+                    let receiving = prev.rs(id, "st").map_or(true, |s| s.starts_with('r'));
+                    let unread = prev.rn(id, "end").unwrap_or(0).saturating_sub(prev.rn(id, "br").unwrap_or(0));
+                    ("F15-stop-after-reset-double-credit", if receiving { unread } else { 0 })
+                }
+                "stream" => ("C06-credit-without-consumption", dr.saturating_sub(prev.n("dr"))),
+                // a reset discards what was not yet consumed or discarded: everything beyond the read
+                // offset, or beyond the high-water mark if the stream was stopped before
+                "rst" => {
+                    let credited = if prev.rn(id, "sp") == Some(1) { prev.rn(id, "end").unwrap_or(0) } else { prev.rn(id, "br").unwrap_or(0) };
+                    ("F14-reset-after-stop-double-credit", w[3].parse::<u64>().unwrap_or(0).saturating_sub(credited))
+                }
+                // an expansion first cancels unpaid shrink debt
+                "recvwin" => {
+                    let growth = v.n("rw").saturating_sub(prev.n("rw"));
+                    ("F12-receive-window-expand-ignores-shrink-debt", growth - growth.min(prev.n("debt")))
+                }
+                _ => ("C06-credit-without-consumption", 0),
             };
             if dl > allowed {
-                self.fail("C06-credit-without-consumption", format!("{line}: local_max_data grew by {dl}, consumed/discarded {allowed}"));
+                self.fail(key, format!("{line}: local_max_data grew by {dl}, consumed/discarded/granted {allowed}"));
             }
         }
         // MAX_STREAMS credit only after a remote stream became fully closed (or the limit was raised)
@@ -1071,6 +1085,22 @@ impl G<'_> {
             self.op("recvwin 0");
             self.op("recvwin 2522");
             self.op("stream 6 0 2555 1");
+        }
+        // F14: 14 bytes received, stopped (credited), then reset with final size 14 (credited again)
+        if self.start(1, 2, 2, 100, 25, 1000) {
+            self.apply_params([100, 100, 100, 2, 2, 100]);
+            self.op("stream 0 0 14 0");
+            self.op("stop 0 7");
+            self.op("rst 0 9 14");
+            self.op("stream 4 0 39 0");
+        }
+        // F15: 59 bytes received, reset with final size 59 (credited), then stopped (credited again)
+        if self.start(1, 2, 2, 100, 59, 2002) {
+            self.apply_params([100, 100, 100, 2, 2, 100]);
+            self.op("stream 0 0 59 0");
+            self.op("rst 0 24 59");
+            self.op("stop 0 35");
+            self.op("stream 4 0 118 0");
         }
     }
 }
